@@ -375,6 +375,10 @@ func okOrErr(err error) string {
 }
 
 func (p *c02) Rule() string {
+	return p.ruleBase() + " " + "Round 12: methods with array parameters ([2]int, *[3]int, [2]Value, [4]byte) called with lists of every small length (literals, context slices, ranges, split results) directly and through attribute(); zoo values whose MarshalJSON / MarshalText is promoted from an embedded pointer or interface that is nil (struct{ *time.Time }{}), alone and inside slices, maps and structs, under every built-in filter."
+}
+
+func (p *c02) ruleBase() string {
 	return "cases: (0) every context variable (48, incl. maps keyed by defined types, defined scalars, embedded structs with a nil embedded pointer, structs with interface fields) looked up with every awkward key (NaN, Inf, 1e400, 0x1, -1, field names ...) through [], in, for, is defined and set; (1) hand-written templates for every situation the statement names (zero divisors, descending/fractional/NaN ranges, 'for..if' with false conditions, hashes indexed by number/null/array, wrong-typed/nil/missing method arguments, nil func fields, unexported fields, empty and pointer inputs to filters, missing templates, unknown callbacks), each in the core and the Twig environment; (2) every built-in Twig filter x the whole Go-value zoo x 21 argument lists, called directly and through {{ v|f }}, {{ v|f(a) }}, {{ v|f(a,b) }} and {% filter f %}; (3) seeded random programs from the hostile generator: every tag (if/elseif/else, for[/key][/if][/else], set, set-capture, filter, block, macro, import, from, include[/with][/only], embed, extends chains of 0..3 ancestors with parent() at every level and expression-named parents, use[/alias], do, verbatim, comments) and every operator over a 26-variable context holding the zoo's shapes. Oracle: Execute returns (output or error); a panic, a process death, an executor step budget (20M) or CPU budget overrun is a violation. Non-trivial = more than 3 executor steps; distinct = (set of node kinds the executor hook saw, error kind)."
 }
 
